@@ -159,14 +159,35 @@ func runC04(e *core.Env) error {
 		// pair's rows must be exactly what the pair produces from the source ALONE (a fresh uncached
 		// client and the real row builder): whatever the other tasks fetched, cached, inserted or
 		// unwound in between has neither removed nor altered nor added a row of this pair.
-		quiet := false
-		for round := 0; round < 80 && !w.dead && !quiet; round++ {
-			quiet = true
+		// the source grows past every recorded position first: a replaced block AT a recorded position is
+		// only noticed through the parent hash of its successor (C03's hypothesis)
+		for guard := 0; guard < 40; guard++ {
+			maxTop := uint64(0)
+			for _, t := range tasks {
+				maxTop = max(maxTop, w.taskTop(t))
+			}
+			if w.head() > maxTop {
+				break
+			}
+			w.grow(1)
+		}
+		w.grow(1)
+		quiet, quietRounds := false, 0
+		for round := 0; round < 120 && !w.dead && !quiet; round++ {
+			all := true
 			for _, t := range tasks {
 				if out := w.step(t, noFault); out != "nothing-new" && out != "done" {
-					quiet = false // progress, an unwind, or a transient error (a stale cached segment): go on
+					all = false // progress, an unwind, or a transient error (a stale cached segment): go on
 				}
 			}
+			// a shared caching client may serve a stale head for max-reads reads (C08 bounds it): only
+			// several consecutive quiet rounds mean quiescence
+			if all {
+				quietRounds++
+			} else {
+				quietRounds = 0
+			}
+			quiet = quietRounds >= 8
 		}
 		var alone []string
 		if !w.dead && quiet {
